@@ -83,7 +83,12 @@ pub fn user_string(kind: StrKind) -> BoxedStrategy<String> {
 }
 
 pub fn file_types() -> BoxedStrategy<Vec<FT>> {
-    proptest::collection::vec(prop::sample::select(FT::ALL.to_vec()), 1..4).boxed()
+    prop_oneof![
+        8 => proptest::collection::vec(prop::sample::select(FT::ALL.to_vec()), 1..4),
+        // long lists with repeats (more entries than there are types)
+        1 => proptest::collection::vec(prop::sample::select(FT::ALL.to_vec()), 7..20),
+    ]
+    .boxed()
 }
 
 pub fn pkind() -> BoxedStrategy<PKind> {
